@@ -39,6 +39,8 @@ CHECKS = {
    text="Under integer / Fraction realisations (denominators up to 1e4, rational rotation, move/scale programs) every control point of every operator result must equal the exact rational image of its grid point and be int/Fraction typed; moments must be the exact rationals.", ref="6/C13"),
  "C14": dict(tech="TLC (ThmXings, ThmParity: crossing parameters and parity on all region pairs) + comparison of intersection() with the TLC-exported crossing parameters",
    text="For every T-class pair of regions whose boundaries cross, TLC exports for each crossing the loop, edge and rational parameter on both boundaries (parametrisation is invariant under the realisations); intersection() of every curve pair must report exactly these tuples (exact for rational polygons), satisfy the range and A(u)=B(v) constraints, swap symmetry, the flag filters and A & B; crossings at vertices after splitting; (None, None) exactly for identical segments.", ref="6/C14"),
+ "C15": dict(tech="TLC model checking of SplitClean.tla (tiling, monotonicity, clean restores / idempotent) + replay of TLC-simulated split/clean programs on real curves of degree 1-3",
+   text="SplitClean.tla models a curve as original segments with break points; TLC checks that pieces tile each segment without zero-length piece, that ignored parameters are no-ops and that clean restores the segmentation. Simulated programs (1-3 pairs per split, repeated / nearly repeated / near-0,1 parameters) are replayed: each real piece must retrace its part of the original segment, share junction points, keep area and orientation; split;clean must be == the original.", ref="6/C15"),
  "C19": dict(tech="TLC heap model (MakeRegion) + direct constructors in permuted orders against operator-built objects and the specification record",
    text="For every region with >= 2 boundary curves the direct ConnectedShape/DisjointShape constructions in permuted orders (with Empty entries) are compared with the specification record, with the operator-built object (== both ways), with complements; collapse rules (single member copy, empty list).", ref="6/C19"),
 }
